@@ -9,7 +9,7 @@ import struct as _struct
 import z3
 
 from .sym import as_int
-from .values import TInt, VInt, VReal, VSeq, VStr, VTuple, fresh_name
+from .values import TInt, VInt, VOpaque, VReal, VSeq, VStr, VTuple, fresh_name
 
 STRUCT_CODES = {"B": (1, False), "I": (4, False), "i": (4, True), "Q": (8, False), "q": (8, True), "L": (8, False)}
 
@@ -346,7 +346,16 @@ def exec_with(ex, s, st):
                 fs_store(ex, cur, path, cur.streams[sid])
                 res.append((cur, status))
             return res
+        if isinstance(mode, VStr) and mode.lit == "r+b" and isinstance(path, VStr):
+            ex.lib_used.add("open(path, 'r+b') in a with-block used for seek()/read(): a read cursor over the file's bytes")
+            c = fs_load(ex, st, path)
+            rf = VOpaque("readfile")
+            rf.content, rf.pos = c, z3.IntVal(0)
+            st.env[var] = rf
+            return ex.exec_block(s.body, st)
         raise Unsupported("open() mode")
+    if fname == "open" and len(ctx.args) >= 2:
+        pass
     if fname == "MMap" and len(ctx.args) == 1:
         path = ex.eval(ctx.args[0], st)
         if not isinstance(path, VStr):
@@ -362,6 +371,50 @@ FS_DATA = z3.Array("fs_data!0", z3.IntSort(), z3.ArraySort(z3.IntSort(), z3.IntS
 FS_LEN = z3.Array("fs_len!0", z3.IntSort(), z3.IntSort())
 FS_EXISTS = z3.Array("fs_exists!0", z3.IntSort(), z3.BoolSort())
 rpath = z3.Function("resolve_path", z3.IntSort(), z3.IntSort())
+pname = z3.Function("path_name", z3.IntSort(), z3.IntSort())
+
+
+def path_axioms():
+    p = z3.Int("p!rp")
+    return [z3.ForAll([p], rpath(rpath(p)) == rpath(p), patterns=[rpath(rpath(p))])]
+
+
+def readfile_method(ex, st, rf, name, args, var_node):
+    """seek()/read() on the read cursor of `with open(path, 'r+b') as f`"""
+    import ast
+    from .values import VBuiltin, VNone
+    if name == "seek":
+        off = as_int(args[0])
+        whence = args[1] if len(args) > 1 else None
+        if isinstance(whence, VBuiltin) and whence.name.endswith("SEEK_END"):
+            pos = rf.content.ln + off
+        elif whence is None:
+            pos = off
+        else:
+            raise Unsupported("seek whence")
+        ex.oblige(st, f"L{ex.cur_line}.seek_position_nonneg", pos >= 0)
+        nrf = VOpaque("readfile")
+        nrf.content, nrf.pos = rf.content, pos
+        if isinstance(var_node, ast.Name):
+            st.env[var_node.id] = nrf
+        return VNone()
+    if name == "read":
+        n = as_int(args[0])
+        ex.oblige(st, f"L{ex.cur_line}.read_within_file", z3.And(n >= 0, rf.pos + n <= rf.content.ln))
+        j = z3.Int(fresh_name("rd"))
+        return VSeq([z3.Lambda([j], rf.content.comps[0][j + rf.pos])], n, TInt(0, 255), "bytes")
+    raise Unsupported(f"file.{name} on a read cursor")
+
+
+def open_rw(ex, st, path):
+    """open(path, 'r+b') kept in an object field: buffered read/write file object on that file"""
+    from .values import VFilePtr
+    fp = VFilePtr(z3.BoolVal(False), z3.IntVal(0), z3.BoolVal(False), z3.BoolVal(False), z3.IntVal(0), z3.IntVal(0),
+                  z3.K(z3.IntSort(), z3.IntVal(0)))
+    fp._path = path
+    d, l, e = fs_state(st)
+    ex.oblige(st, f"L{ex.cur_line}.file_exists", e[path.t])
+    return fp
 
 
 def fs_state(st):
